@@ -524,4 +524,109 @@ theorem memo_order_dependent_on_cycle :
     (match evalSeq JediModel.Props.C16.twoCycle 3 Memo.empty [1, 0] with
       | .ok (_, rs) => some rs | .error _ => none) = some [[1, 0], [0]] := by decide
 
+/-! ## completions out of a union of inferred values: the dict keys of a subscript
+
+`Completion.complete()` returns `_remove_duplicates(prefixed_completions, completions) + sorted(...)`:
+what `strings.complete_dict` produced stands in front AS IT COMES. It comes out of
+`_completions_for_dicts(inference_state, dicts, ...)` where `dicts` is the `ValueSet` of everything the
+expression before the bracket is inferred to - a frozenset hashed by object identity, so the order
+in which the dicts arrive differs between processes, heap layouts, even two Scripts of one process. -/
+
+/-- where `jedi/api/strings.py` sorts, as the translator found it -/
+def srcDictCfg : DictCfg :=
+  { globalSort := Gen.C16.dictKeysGlobalSort, perDictSort := Gen.C16.dictKeysPerDictSort }
+
+/-- the keys of ALL inferred dicts are sorted together, right where they are consumed
+(`for dict_key in sorted(_get_python_keys(dicts), key=lambda x: repr(x))`), and `complete()` does not
+reorder them afterwards. Moving the sort into `_get_python_keys` (one sort per dict) breaks this. -/
+theorem dict_keys_sorted_together_transcribed :
+    Gen.C16.dictKeysGlobalSort = true ∧
+    Gen.C16.completeReturnHead = "_remove_duplicates(prefixed_completions, completions)" := by decide
+
+/-- FULL: with the keys of all dicts sorted together, the dict key completions - names and order -
+are the same for every order in which the set of inferred values is iterated: any number of values,
+dicts or not, any keys (shared between dicts, without a safe value), whatever is typed after the
+bracket, sorted per dict in addition or not -/
+theorem dict_completions_perm_invariant (cfg : DictCfg) (h : cfg.globalSort = true) (lit cut : Str)
+    (d₁ d₂ : List DictVal) (hp : d₁.Perm d₂) :
+    completionsForDicts cfg lit cut d₁ = completionsForDicts cfg lit cut d₂ := by
+  simp only [completionsForDicts, h, if_true]
+  rw [sortByRepr_perm_eq _ _ (getPythonKeys_perm cfg d₁ d₂ hp)]
+
+/-- two dicts sharing a key, a value that is no dict, a key without a safe value; `d['k` typed -/
+example : completionsForDicts ⟨true, false⟩ [39, 107] [39]
+      [⟨true, [some [39, 107, 98, 39], some [49, 48]]⟩, ⟨false, [some [39, 107, 122, 39]]⟩,
+       ⟨true, [none, some [39, 107, 97, 39], some [39, 107, 98, 39]]⟩]
+    = [[39, 107, 97], [39, 107, 98]] := by decide
+
+/-- ... for the source as it stands -/
+theorem dict_completions_src_perm_invariant (lit cut : Str) (d₁ d₂ : List DictVal) (hp : d₁.Perm d₂) :
+    completionsForDicts srcDictCfg lit cut d₁ = completionsForDicts srcDictCfg lit cut d₂ :=
+  dict_completions_perm_invariant srcDictCfg (by decide) lit cut d₁ d₂ hp
+
+example : [DictVal.mk true [some [49]], DictVal.mk true [some [48]]].Perm
+    [DictVal.mk true [some [48]], DictVal.mk true [some [49]]] := List.Perm.swap _ _ _
+
+/-- `{'host': 1, 'port': 2}` and `{'user': 3, 'debug': 4}` as `repr`s of their keys -/
+def dictHostPort : DictVal :=
+  ⟨true, [some [39, 104, 111, 115, 116, 39], some [39, 112, 111, 114, 116, 39]]⟩
+def dictUserDebug : DictVal :=
+  ⟨true, [some [39, 117, 115, 101, 114, 39], some [39, 100, 101, 98, 117, 103, 39]]⟩
+
+/-- kernel-checked witness that the sort over all keys is needed: sorting the keys of each dict
+(`yield from sorted(keys, key=repr)` in `_get_python_keys`) without the sort in
+`_completions_for_dicts` gives `'host' 'port' 'debug' 'user'` for one iteration order of the two dicts
+and `'debug' 'user' 'host' 'port'` for the other -/
+theorem dict_completions_order_dependent_with_per_dict_sort :
+    [dictHostPort, dictUserDebug].Perm [dictUserDebug, dictHostPort] ∧
+    completionsForDicts ⟨false, true⟩ [] [] [dictHostPort, dictUserDebug] ≠
+      completionsForDicts ⟨false, true⟩ [] [] [dictUserDebug, dictHostPort] ∧
+    completionsForDicts ⟨true, false⟩ [] [] [dictHostPort, dictUserDebug] =
+      completionsForDicts ⟨true, false⟩ [] [] [dictUserDebug, dictHostPort] :=
+  ⟨List.Perm.swap _ _ _, by decide, by decide⟩
+
+/-- why a test on ONE dict cannot tell the two apart: on a single inferred value the per-dict sort
+and the sort over all keys give the same completions -/
+theorem single_dict_hides_where_the_sort_is (lit cut : Str) (d : DictVal) :
+    completionsForDicts ⟨false, true⟩ lit cut [d] = completionsForDicts ⟨true, false⟩ lit cut [d] := by
+  simp only [completionsForDicts, getPythonKeys, List.flatMap_cons, List.flatMap_nil, List.append_nil]
+  cases d.isDict <;> simp [sortByRepr]
+
+example : completionsForDicts ⟨false, true⟩ [] [] [dictUserDebug]
+    = [[39, 100, 101, 98, 117, 103, 39], [39, 117, 115, 101, 114, 39]] := by decide
+
+/-- a key is offered once, however many dicts have it (the `seen` set): no name twice when nothing is
+cut off the end -/
+theorem dict_completions_nodup (cfg : DictCfg) (lit : Str) (dicts : List DictVal) :
+    (completionsForDicts cfg lit [] dicts).Nodup := by
+  have gen : ∀ (ks seen : List Str), (completionLoop lit [] seen ks).Nodup ∧
+      ∀ x ∈ completionLoop lit [] seen ks, x ∉ seen := by
+    intro ks
+    induction ks with
+    | nil => intro seen; simp [completionLoop]
+    | cons r rest ih =>
+      intro seen
+      simp only [completionLoop]
+      split
+      · rename_i hc
+        simp only [Bool.and_eq_true, Bool.not_eq_true', List.contains_eq_mem, decide_eq_false_iff_not] at hc
+        have ih' := ih (createReprString lit r :: seen)
+        refine ⟨?_, ?_⟩
+        · refine List.nodup_cons.mpr ⟨?_, ih'.1⟩
+          intro hmem
+          have := ih'.2 _ hmem
+          simp [cutEnd] at this
+        · intro x hx
+          rcases List.mem_cons.mp hx with e | hx'
+          · subst e; simpa [cutEnd] using hc.2
+          · have := ih'.2 x hx'
+            intro hs
+            exact this (List.mem_cons_of_mem _ hs)
+      · exact ih seen
+  exact (gen _ []).1
+
+example : completionsForDicts ⟨true, false⟩ [] [] [dictHostPort, dictHostPort, dictUserDebug] =
+    [[39, 100, 101, 98, 117, 103, 39], [39, 104, 111, 115, 116, 39], [39, 112, 111, 114, 116, 39],
+     [39, 117, 115, 101, 114, 39]] := by decide
+
 end JediModel.Props.C16
